@@ -620,6 +620,8 @@ def run(ctx, rep):
     c09_scale.run(ctx, rep)
     from rules import c09_signed
     c09_signed.run(ctx, rep)
+    from rules import c09_oneround
+    c09_oneround.run(ctx, rep)
     # character strings are read character by character: nothing rewrites the raw text (inside literals too) before the lexer
     from rules.c08 import rule_prestep
     rule_prestep(ctx, rep, rid="R-C09-prestep")
